@@ -689,8 +689,9 @@ def layout_leg(ctx, stats):
             stats["layout_skipped"] = stats.get("layout_skipped", 0) + 1
             continue
         real = real_layouts(a["mir0"], k)
-        # types never demanded are absent from the dump / `?` in the model
-        pairs = [(x, y) for x, y in zip(real.split(" "), m.split(" ")) if not x.endswith("?") or not y.endswith("?")]
+        # a type absent from the dump was never demanded (`?` in the model too) or was merged into
+        # a structurally identical one by mir_type_deduplication (then only the survivor is compared)
+        pairs = [(x, y) for x, y in zip(real.split(" "), m.split(" ")) if not x.endswith("?")]
         if any(x != y for x, y in pairs):
             ctx.violation("model/implementation disagreement on protocol layout (Model/Layout.lean vs mir_generics_specialization.rs enum layout choice)",
                           {"protocol": "layout", "line": line, "sources": p["sources"], "impl": real, "model": m,
